@@ -42,13 +42,13 @@ def plan(tier, seed):
 
 
 def gen_case(rng, ctx):
-    kind = rng.choice(["int", "bigint", "str", "intlike", "mixed_str", "mixed_str"])
+    kind = rng.choice(["int", "bigint", "str", "intlike", "mixed_str", "mixed_str", "int_and_str", "digits_plus_word"])
     n = rng.randint(2, 8)
     _, names = gen.element_names(rng, n, kind)
     cls, ds = gen.dataset(rng, classes="D2 D3 D3 D4 D4 D6 D7", names=names, n=n, mmax=6)
     k = rng.randint(3, 10)
     return {"ds": ds, "names_kind": kind, "dcls": cls, "ops": [rng.choice(OPS) for _ in range(k)],
-            "opseed": rng.randrange(10 ** 6)}
+            "opseed": rng.randrange(10 ** 6), "via": rng.choice(["constructor", "from_raw_list", "elements"])}
 
 
 def model_normalise(ds):
@@ -87,7 +87,14 @@ def check_case(case, ctx):
     ds0 = case["ds"]
     rng = random.Random(case["opseed"])
     common.drain_invariant_problems()
-    st, d = call(libx.mk_dataset, ds0)
+    via = case.get("via", "constructor")
+    ctx.count("via:" + via)
+    if via == "from_raw_list":
+        st, d = call(ck.Dataset.from_raw_list, [[set(b) for b in r] for r in ds0], "raw")
+    elif via == "elements":
+        st, d = call(lambda: ck.Dataset([ck.Ranking([{ck.Element(e) for e in b} for b in r]) for r in ds0]))
+    else:
+        st, d = call(libx.mk_dataset, ds0)
     if st == "exc":
         ctx.violation(f"C16/constructor-raises-{type(d).__name__}", "Dataset construction raised " + exc_desc(d), case)
         return
